@@ -16,13 +16,15 @@ ID = "C20"
 CASES = {"quick": 3000, "thorough": 40000}
 FLOOR = {"quick": 2500, "thorough": 35000}
 FLOOR_COUNTERS = {
-    "quick": {"tiny_regulariser_cases": 150, "lpr_values_judged": 20000, "cpr_values_judged": 8000, "rank_deficient_cases": 250, "single_env_structures": 1500},
-    "thorough": {"tiny_regulariser_cases": 2000, "lpr_values_judged": 280000, "cpr_values_judged": 110000, "rank_deficient_cases": 3500, "single_env_structures": 20000},
+    "quick": {"tiny_regulariser_cases": 150, "lpr_values_judged": 20000, "cpr_values_judged": 8000, "rank_deficient_cases": 250, "single_env_structures": 1500, "containers_reused_with_other_contents": 700, "block3d_inputs": 700, "integer_typed_structures": 800},
+    "thorough": {"tiny_regulariser_cases": 2000, "lpr_values_judged": 280000, "cpr_values_judged": 110000, "rank_deficient_cases": 3500, "single_env_structures": 20000, "containers_reused_with_other_contents": 10000, "block3d_inputs": 10000, "integer_typed_structures": 11000},
 }
 RULE = (
     "case = 1-15 training and 1-8 test structures of 1-8 environments (incl. single-environment structures), feature "
     "dimension 2-10, alpha over 1e-8..1e3 (plus a rank-deficient class: fewer structures than features with alpha=1e-300 for "
-    "rank_diff), 1-4 components incl. width-1 blocks. non-trivial = several components or single-environment structures; "
+    "rank_diff), 1-4 components incl. width-1 blocks; argument forms: fresh lists | one list per side re-used for every call with its "
+    "contents replaced / rescaled in place | 3-D blocks | 3-D blocks with the test structures a view of the training block; float64 or "
+    "integer-typed structures. non-trivial = several components or single-environment structures; "
     "distinct by data hash."
 )
 ASSUMPTIONS = [
@@ -39,15 +41,25 @@ def gen(rng, tier, index):
     nte = int(rng.integers(1, 9))
     off = rng.normal(size=d) * float(gens.pick(rng, (0.0, 1.0)))
 
-    def strucs(k):
-        return [rng.normal(size=(int(gens.pick(rng, (1, 1, 2, 3, 5, 8))), d)) * 10.0 ** rng.uniform(-0.5, 0.5, size=d) + off for _ in range(k)]
+    form = gens.pick(rng, ("fresh", "fresh", "reused", "reused", "block3d", "block3d_shared"))
+    e_fixed = int(gens.pick(rng, (1, 2, 3, 5))) if form.startswith("block3d") else None
+    dts = [gens.pick(rng, ("float64", "float64", "float64", "int64", "int32")) for _ in range(2)]
+
+    def strucs(k, dt="float64"):
+        out = [rng.normal(size=(e_fixed or int(gens.pick(rng, (1, 1, 2, 3, 5, 8))), d)) * 10.0 ** rng.uniform(-0.5, 0.5, size=d) + off for _ in range(k)]
+        return out if dt == "float64" else [np.round(x * 64).astype(dt) for x in out]
 
     ncomp = int(rng.integers(1, min(4, d) + 1))
     cuts = np.sort(rng.choice(np.arange(1, d), size=ncomp - 1, replace=False)) if ncomp > 1 else np.array([], int)
     comp_dims = np.diff(np.concatenate([[0], cuts, [d]])).astype(int)
+    Xtr = strucs(ntr, dts[0])
+    Xte = [x.copy() for x in Xtr[: min(nte, ntr)]] if form == "block3d_shared" else strucs(nte, dts[1])
     return {
-        "Xtr": strucs(ntr),
-        "Xte": strucs(nte),
+        "Xtr": Xtr,
+        "Xte": Xte,
+        "form": form,
+        "dtypes": dts,
+        "decoy": [strucs(ntr), strucs(len(Xte))],
         "alpha": 1e-300 if deficient else (float(10.0 ** rng.uniform(-11.5, -9.0)) if nearsing else float(10.0 ** rng.uniform(-8, 3))),
         "alpha2": float(10.0 ** rng.uniform(0.1, 2)),
         "comp_dims": comp_dims,
@@ -56,7 +68,70 @@ def gen(rng, tier, index):
     }
 
 
+class _Args:
+    """The containers handed to the library, in the form the case prescribes.
+
+    fresh          : new lists of new arrays for every call
+    reused         : ONE training list and ONE test list for all calls of the case; their contents are replaced or
+                     edited in place between calls (first life: decoy structures)
+    block3d        : equally sized structures as one 3-D array per side, the same two arrays for every call
+    block3d_shared : as block3d, and the test structures are a view of the first training structures
+    """
+
+    def __init__(self, case, j):
+        self.form = case.get("form", "fresh")
+        self.Xtr, self.Xte = case["Xtr"], case["Xte"]
+        self.j = j
+        self.decoyed = False
+        if self.form == "reused":
+            self.tr = [x.copy() for x in case["decoy"][0]]
+            self.te = [x.copy() for x in case["decoy"][1]]
+        elif self.form.startswith("block3d"):
+            self.tr = np.stack(self.Xtr)
+            self.te = self.tr[: len(self.Xte)] if self.form == "block3d_shared" else np.stack(self.Xte)
+            self.before = (self.tr.copy(), self.te.copy())
+
+    def first_life(self, lpr_fn, cpr_fn, alpha, comp):
+        if self.form == "reused":
+            self.j.lib("lpr:decoy", lpr_fn, self.tr, self.te, alpha)
+            self.j.lib("cpr:decoy", cpr_fn, self.tr, self.te, alpha, comp.copy())
+            self.set(1.0)
+            self.j.note("containers_reused_with_other_contents")
+
+    def set(self, c):
+        """put c x (the case's structures) into the re-used containers, in place"""
+        if self.form == "reused":
+            for i, x in enumerate(self.Xtr):
+                self.tr[i] = x.copy() if c == 1.0 else c * x
+            if c != 1.0 and all(x.dtype == float for x in self.Xte):
+                for i, x in enumerate(self.Xte):  # the arrays themselves are rescaled in place
+                    if self.te[i].shape != x.shape:
+                        self.te[i] = x.copy()
+                    else:
+                        self.te[i][...] = x
+                    self.te[i] *= c
+            else:
+                for i, x in enumerate(self.Xte):
+                    self.te[i] = x.copy() if c == 1.0 else c * x
+
+    def get(self, c=1.0):
+        if self.form == "fresh":
+            return [x.copy() if c == 1.0 else c * x for x in self.Xtr], [x.copy() if c == 1.0 else c * x for x in self.Xte]
+        if self.form == "reused":
+            self.set(c)
+            return self.tr, self.te
+        if c == 1.0:
+            return self.tr, self.te
+        tr = c * self.tr
+        return tr, (tr[: len(self.Xte)] if self.form == "block3d_shared" else c * self.te)
+
+    def unchanged(self):
+        if self.form.startswith("block3d"):
+            self.j.ok("3-D block inputs are what they were after the calls", np.array_equal(self.tr, self.before[0]) and np.array_equal(self.te, self.before[1]))
+
+
 def _closed_form(Xtr, alpha):
+    Xtr = [np.asarray(x, dtype=float) for x in Xtr]
     A = np.vstack(Xtr)
     s = np.sqrt((A**2).mean(axis=0).sum())
     S = np.vstack([x.mean(axis=0) for x in Xtr]) / s
@@ -69,10 +144,18 @@ def run(case, j):
 
     Xtr, Xte, alpha, comp = case["Xtr"], case["Xte"], case["alpha"], case["comp_dims"]
     d = Xtr[0].shape[1]
+    args = _Args(case, j)
+    j.tag(f"form:{args.form}", "dtype:float64" if case.get("dtypes", ["float64"] * 2) == ["float64"] * 2 else "dtype:integer")
+    if args.form.startswith("block3d"):
+        j.note("block3d_inputs")
+    if case.get("dtypes", ["float64"] * 2) != ["float64"] * 2:
+        j.note("integer_typed_structures")
+    args.first_life(lpr_fn, cpr_fn, alpha, comp)
     j.tag("rank-deficient" if case["deficient"] else ("tiny-regulariser" if case["alpha"] < 1e-8 else "regular"), f"components:{len(comp)}", f"dim:{d}")
     with rt.FPTrap() as fp:
-        LPR, rd = j.lib("lpr", lpr_fn, [x.copy() for x in Xtr], [x.copy() for x in Xte], alpha)
-        CPR, LCPR, rd2 = j.lib("cpr", cpr_fn, [x.copy() for x in Xtr], [x.copy() for x in Xte], alpha, comp.copy())
+        LPR, rd = j.lib("lpr", lpr_fn, *args.get(), alpha)
+        CPR, LCPR, rd2 = j.lib("cpr", cpr_fn, *args.get(), alpha, comp.copy())
+    Xte = [np.asarray(x, dtype=float) for x in Xte]
     s, M = _closed_form(Xtr, alpha)
     ev = np.linalg.eigvalsh(M)
     clean = bool(np.all((ev > 1e-8 * ev[-1]) | (ev < 1e-13 * ev[-1])))
@@ -92,6 +175,8 @@ def run(case, j):
         j.skip("ill-conditioned-covariance(values not judged)")
     else:
         edges = np.concatenate([[0], np.cumsum(comp)])
+        cpr_ok = np.zeros((len(Xte), len(comp)), bool)  # entries whose masked structure average is not (numerically) null
+        null_block = False  # an exactly vanishing masked vector (whole-number data): the rigidity is 1/0 by definition
         for si, X in enumerate(Xte):
             xs = X / s
             q = np.einsum("ij,ij->i", xs, np.linalg.solve(M, xs.T).T)
@@ -112,7 +197,9 @@ def run(case, j):
                 j.close("LCPR == closed form restricted to the component's block", gotc[okc], 1.0 / qc[okc], rtol / qc[okc])
                 xmc = xm * msk
                 qa = float(xmc @ np.linalg.solve(M, xmc))
+                null_block |= bool(np.any((xc**2).sum(axis=1) == 0) or (xmc**2).sum() == 0)
                 if qa > 1e-12 * max(float((xmc**2).sum()), 1e-300) / ev[-1]:
+                    cpr_ok[si, ci] = True
                     j.close("CPR == closed form for the structure average", CPR[si, ci], 1.0 / qa, rtol / qa)
                     j.ok("CPR strictly positive and finite", np.isfinite(CPR[si, ci]) and CPR[si, ci] > 0, CPR[si, ci])
                     j.note("cpr_values_judged")
@@ -121,23 +208,31 @@ def run(case, j):
                     j.note("single_env_structures")
         # relations
         c = case["c"]
-        LPRc, _ = lpr_fn([c * x for x in Xtr], [c * x for x in Xte], alpha)
+        LPRc, _ = lpr_fn(*args.get(c), alpha)
         for a, b in zip(LPR, LPRc):
             j.close("LPR invariant under a common rescaling of all features", b, a, rtol * np.abs(a))
-        CPRc, LCPRc, _ = cpr_fn([c * x for x in Xtr], [c * x for x in Xte], alpha, comp.copy())
-        j.close("CPR invariant under a common rescaling", CPRc, CPR, rtol * np.abs(CPR))
+        CPRc, LCPRc, _ = cpr_fn(*args.get(c), alpha, comp.copy())
+        j.close("CPR invariant under a common rescaling", CPRc[cpr_ok], CPR[cpr_ok], rtol * np.abs(CPR[cpr_ok]))
         a2 = alpha * case["alpha2"]
-        LPR2, _ = lpr_fn([x.copy() for x in Xtr], [x.copy() for x in Xte], a2)
+        LPR2, _ = lpr_fn(*args.get(), a2)
         for a, b in zip(LPR, LPR2):
             j.ok("LPR non-decreasing in alpha", bool(np.all(b >= a * (1 - 1e-9 - rtol))), (a, b))
-        CPR2, LCPR2, _ = cpr_fn([x.copy() for x in Xtr], [x.copy() for x in Xte], a2, comp.copy())
-        j.ok("CPR non-decreasing in alpha", bool(np.all(CPR2 >= CPR * (1 - 1e-9 - rtol))))
+        CPR2, LCPR2, _ = cpr_fn(*args.get(), a2, comp.copy())
+        j.ok("CPR non-decreasing in alpha", bool(np.all(CPR2[cpr_ok] >= CPR[cpr_ok] * (1 - 1e-9 - rtol))))
         for a, b in zip(LCPR, LCPR2):
             j.ok("LCPR non-decreasing in alpha", bool(np.all(b >= a * (1 - 1e-9 - rtol))))
-        _, LC1, _ = cpr_fn([x.copy() for x in Xtr], [x.copy() for x in Xte], alpha, np.array([d]))
+        _, LC1, _ = cpr_fn(*args.get(), alpha, np.array([d]))
         for a, b in zip(LPR, LC1):
             j.close("LCPR with a single component == LPR", np.asarray(b)[:, 0], a, (1e-9 + rtol * 1e-2) * np.abs(a))
+        # the same containers once more, after all of the above: still the closed form
+        LPRz, _ = lpr_fn(*args.get(), alpha)
+        for a, b in zip(LPR, LPRz):
+            j.close("LPR of the same arguments, asked again after other calls, is what it was", b, a, 1e-12 * np.abs(a))
+        args.unchanged()
         bad = fp.in_skmatter()
-        j.ok("no invalid / divide-by-zero FP event inside skmatter on well-conditioned input", not bad, bad[:3])
+        if null_block:
+            j.skip("fp-events-not-judged:a-masked-test-vector-is-exactly-null")
+        else:
+            j.ok("no invalid / divide-by-zero FP event inside skmatter on well-conditioned input", not bad, bad[:3])
     j.nontrivial = len(comp) > 1 or any(len(x) == 1 for x in Xte)
     j.sample = {"train_structures": [len(x) for x in Xtr], "test_structures": [len(x) for x in Xte], "dim": d, "alpha": alpha, "comp_dims": comp.tolist(), "rank_diff": int(rd), "LPR[0]": [float(v) for v in np.asarray(LPR[0])[:4]], "cond": float(cond)}
